@@ -421,10 +421,11 @@ func corruptFile(t *simrt.Tape, meta string, forLibrary bool) ([]byte, string, [
 		case 3: // limit
 			vals := []uint32{0, 8, h, d.Limit + 1, d.Limit - 32, uint32(len(data)) + 32, uint32(len(data)) + 3*refformat.PageSize + 8, 0x7fffffff, 0xffffffff}
 			if forLibrary {
-				// The library honours the recorded limit when it grows the file: an
-				// absurd limit makes it create and map a sparse file of that size,
-				// whose (legitimately bounded) chain walks cannot be simulated.
-				vals = vals[:len(vals)-2]
+				// The library honours the recorded limit when it grows the file: a
+				// limit of gigabytes makes it create and map a sparse file of that
+				// size, whose (legitimately bounded) chain walks cannot be simulated.
+				// Limits so close to 2^32 that the 32-bit arithmetic wraps are kept.
+				vals = append(vals[:len(vals)-2], 0xffffff00, 0xffffffe0, 0xffffc020)
 			}
 			v := vals[t.Draw(len(vals))]
 			put32(h, v)
@@ -516,6 +517,10 @@ func scenarioC05Corruption(c *hlib.RunCtx) *hlib.Violation {
 	if !ok {
 		panic("learnMeta failed")
 	}
+	// One thread per process here: really unmap, so that a remap loop does not
+	// pile up poisoned mappings until mmap itself fails.
+	realUnmap = true
+	defer func() { realUnmap = false }()
 	data, desc, stored := corruptFile(t, meta, true)
 	path := filepath.Join(w.local, base)
 	if err := os.WriteFile(path, data, 0666); err != nil {
